@@ -150,6 +150,9 @@ func oneTree(k *vlib.Case, o ufsgen.TreeOpts) {
 		all = append(all[:160], dirTargets...)
 	}
 	for _, t := range all {
+		if k.C.Aborted() {
+			return
+		}
 		w.checkExisting(t.segs, t.e)
 	}
 
@@ -304,7 +307,7 @@ func (w *world) checkExisting(segs []string, e *ufsgen.Entry) {
 	var c cid.Cid
 	var rem []string
 	var err error
-	if !vlib.Guard(k, "ResolveToLastNode", 120*time.Second, func() { c, rem, err = w.res.ResolveToLastNode(w.ctx, ip) }) {
+	if !vlib.Guard(k, "ResolveToLastNode", 10*time.Minute, func() { c, rem, err = w.res.ResolveToLastNode(w.ctx, ip) }) {
 		return
 	}
 	if w.queries <= 60 {
@@ -448,7 +451,7 @@ func (w *world) checkMissing(dirSegs []string, dir *ufsgen.Entry, name string, t
 	feat := dir.Kind.String() + "/" + pos
 	var c cid.Cid
 	var err error
-	if !vlib.Guard(k, "ResolveToLastNode", 120*time.Second, func() { c, _, err = w.res.ResolveToLastNode(w.ctx, ip) }) {
+	if !vlib.Guard(k, "ResolveToLastNode", 10*time.Minute, func() { c, _, err = w.res.ResolveToLastNode(w.ctx, ip) }) {
 		return
 	}
 	if w.queries <= 60 {
